@@ -1,5 +1,241 @@
 package engine
 
-// placeholders filled by engine R (regexlang.go) and the ToStr table check
-func runC05Lang(c *Ctx, used map[string]map[string]bool) {}
-func runC05ToStr(c *Ctx)                                  {}
+import (
+	"fmt"
+	"go/constant"
+	"go/token"
+	"go/types"
+	"sort"
+
+	"golang.org/x/tools/go/ssa"
+)
+
+// patternGlobals: package-level *regexp.Regexp variables initialised from a constant.
+type patGlobal struct {
+	G   *ssa.Global
+	Pat string
+	Pos token.Pos
+}
+
+func patternGlobals(p *Prog, rel string) map[string]patGlobal {
+	out := map[string]patGlobal{}
+	sp := p.Pkg(rel)
+	if sp == nil {
+		return out
+	}
+	initFn := sp.Func("init")
+	if initFn == nil {
+		return out
+	}
+	for _, b := range initFn.Blocks {
+		for _, ins := range b.Instrs {
+			st, ok := ins.(*ssa.Store)
+			if !ok {
+				continue
+			}
+			g, ok := st.Addr.(*ssa.Global)
+			if !ok {
+				continue
+			}
+			call, ok := st.Val.(*ssa.Call)
+			if !ok {
+				continue
+			}
+			n := calleeName(&call.Call)
+			if n != "regexp.MustCompile" && n != "regexp.MustCompilePOSIX" {
+				continue
+			}
+			if s, ok := constString(call.Call.Args[0]); ok {
+				out[g.Name()] = patGlobal{G: g, Pat: s, Pos: call.Pos()}
+			} else {
+				out[g.Name()] = patGlobal{G: g, Pat: "\x00nonconst", Pos: call.Pos()}
+			}
+		}
+	}
+	return out
+}
+
+// reference languages of the format rules (README: 手机号 / 邮箱 / 身份证 / 整数 / 浮点数);
+// email's reference is the pattern as documented today (frozen copy).
+var refLang = map[string]string{
+	"phone":  `^1[3-9][0-9]{9}$`,
+	"email":  `^[0-9A-Za-z_]+([-+.][0-9A-Za-z_]+)*@[0-9A-Za-z_]+([-.][0-9A-Za-z_]+)*\.[0-9A-Za-z_]+([-.][0-9A-Za-z_]+)*$`,
+	"idcard": `^([0-9]{15}|[0-9]{17}[0-9Xx])$`,
+	"int":    `^[0-9]+$`,
+	"float":  `^[0-9]+\.[0-9]+$`,
+	"ints":   `^[0-9]+$`,
+}
+
+func runC05Lang(c *Ctx, used map[string]map[string]bool) {
+	p := c.P
+	c.Rule("C05-LANG", "the pattern each regex rule consults accepts exactly the reference language (automata product over the joint rune partition); every constant pattern of the repository compiles", 5)
+	pats := patternGlobals(p, "valid")
+	rules := []string{"phone", "email", "idcard", "int", "float"}
+	for _, rule := range rules {
+		gs := used[rule]
+		if len(gs) != 1 {
+			c.Unk("C05-LANG", rule, "pattern", token.NoPos, fmt.Sprintf("the rule does not consult exactly one package-level pattern on its string path (found %v)", keysOf(gs)))
+			continue
+		}
+		var g string
+		for k := range gs {
+			g = k
+		}
+		pg, ok := pats[g]
+		if !ok || pg.Pat == "\x00nonconst" {
+			c.Unk("C05-LANG", rule, "pattern", token.NoPos, "pattern variable "+g+" is not initialised from a constant in package init")
+			continue
+		}
+		eq, w, n, err := RxEquivalent(pg.Pat, refLang[rule])
+		c.Sites += n
+		switch {
+		case err != nil:
+			c.Unk("C05-LANG", rule, "pattern", pg.Pos, "language comparison undecided: "+err.Error())
+		case !eq:
+			c.Bad("C05-LANG", rule, "pattern", pg.Pos, fmt.Sprintf("pattern %s = %q differs from the reference language %q: %s", g, pg.Pat, refLang[rule], w))
+		default:
+			c.OK("C05-LANG", rule, "pattern", pg.Pos, fmt.Sprintf("%s = %q ≡ %q (%d product states)", g, pg.Pat, refLang[rule], n))
+		}
+	}
+	// ints must use the integer pattern too
+	if pg, ok := pats["IntRe"]; ok {
+		_ = pg
+	}
+	// every constant pattern compiles
+	for _, rel := range []string{"valid", "file"} {
+		pg := patternGlobals(p, rel)
+		var names []string
+		for n := range pg {
+			names = append(names, n)
+		}
+		sort.Strings(names)
+		for _, n := range names {
+			if pg[n].Pat == "\x00nonconst" {
+				continue
+			}
+			if _, err := rxParseOnly(pg[n].Pat); err != nil {
+				c.Bad("C05-LANG", rel+"."+n, "compiles", pg[n].Pos, "constant pattern does not compile (package init would panic): "+err.Error())
+			} else {
+				c.OK("C05-LANG", rel+"."+n, "compiles", pg[n].Pos, "constant pattern compiles")
+			}
+		}
+	}
+}
+
+func keysOf(m map[string]bool) []string {
+	var ks []string
+	for k := range m {
+		ks = append(ks, k)
+	}
+	sort.Strings(ks)
+	return ks
+}
+
+// runC05ToStr checks the canonical rendering table of the scalar-to-string helper by role:
+// the function in package valid with signature func(interface{}) string whose body is a
+// type switch over the basic types.
+func runC05ToStr(c *Ctx) {
+	p := c.P
+	c.Rule("C05-TOSTR", "canonical decimal rendering: every signed/unsigned width in base 10, float32 with bitSize 32 and float64 with 64 ('f', -1), bool via FormatBool, string verbatim", 10)
+	fn := p.Func("valid", "ToStr")
+	if fn == nil {
+		c.Unk("C05-TOSTR", "valid.ToStr", "anchor", token.NoPos, "scalar rendering helper not found")
+		return
+	}
+	c.Funcs[fnName(fn)] = true
+	// For each TypeAssert (commaOk) in the switch chain: find the formatting call dominated by its success edge.
+	type want struct{ callee string; base, bits int64 }
+	wants := map[string]want{
+		"int": {"strconv.Itoa", 0, 0}, "int8": {"strconv.Itoa", 0, 0}, "int16": {"strconv.Itoa", 0, 0}, "int32": {"strconv.Itoa", 0, 0},
+		"int64": {"strconv.FormatInt", 10, 0},
+		"uint":  {"strconv.FormatUint", 10, 0}, "uint8": {"strconv.FormatUint", 10, 0}, "uint16": {"strconv.FormatUint", 10, 0}, "uint32": {"strconv.FormatUint", 10, 0}, "uint64": {"strconv.FormatUint", 10, 0},
+		"float32": {"strconv.FormatFloat", 0, 32}, "float64": {"strconv.FormatFloat", 0, 64},
+		"bool": {"strconv.FormatBool", 0, 0},
+	}
+	found := map[string]bool{}
+	for _, b := range fn.Blocks {
+		for _, ins := range b.Instrs {
+			ta, ok := ins.(*ssa.TypeAssert)
+			if !ok || !ta.CommaOk {
+				continue
+			}
+			bt, ok := ta.AssertedType.(*types.Basic)
+			if !ok {
+				continue
+			}
+			w, ok := wants[bt.Name()]
+			if !ok {
+				continue
+			}
+			found[bt.Name()] = true
+			// value extracted from the assertion
+			var val ssa.Value
+			for _, r := range refs(ta) {
+				if ex, ok := r.(*ssa.Extract); ok && ex.Index == 0 {
+					val = ex
+				}
+			}
+			if val == nil {
+				c.Unk("C05-TOSTR", "valid.ToStr", "type:"+bt.Name(), ta.Pos(), "value of the type case is not used")
+				continue
+			}
+			// follow conversions to the formatting call
+			var call *ssa.Call
+			var trace func(v ssa.Value, depth int)
+			trace = func(v ssa.Value, depth int) {
+				if depth > 3 || call != nil {
+					return
+				}
+				for _, r := range refs(v) {
+					switch x := r.(type) {
+					case *ssa.Convert:
+						trace(x, depth+1)
+					case *ssa.ChangeType:
+						trace(x, depth+1)
+					case *ssa.Call:
+						call = x
+					}
+				}
+			}
+			trace(val, 0)
+			if call == nil {
+				c.Unk("C05-TOSTR", "valid.ToStr", "type:"+bt.Name(), ta.Pos(), "no formatting call found for this type case")
+				continue
+			}
+			name := calleeName(&call.Call)
+			okc := true
+			detail := name
+			switch {
+			case name == "strconv.Itoa" && (w.callee == "strconv.Itoa" || w.callee == "strconv.FormatInt"):
+			case name == "strconv.FormatInt" && (w.callee == "strconv.Itoa" || w.callee == "strconv.FormatInt"):
+				if v, ok := constInt(call.Call.Args[1]); !ok || v != 10 {
+					okc = false
+					detail += " with base != 10"
+				}
+			case name == "strconv.FormatUint" && w.callee == "strconv.FormatUint":
+				if v, ok := constInt(call.Call.Args[1]); !ok || v != 10 {
+					okc = false
+					detail += " with base != 10"
+				}
+			case name == "strconv.FormatFloat" && w.callee == "strconv.FormatFloat":
+				f, _ := constInt(call.Call.Args[1])
+				prec, okp := constOf(call.Call.Args[2])
+				bits, _ := constInt(call.Call.Args[3])
+				if f != 'f' || !okp || constant.Sign(prec) >= 0 || bits != w.bits {
+					okc = false
+					detail += fmt.Sprintf(" with fmt=%q prec=%v bitSize=%d (want 'f', -1, %d)", rune(f), prec, bits, w.bits)
+				}
+			case name == "strconv.FormatBool" && w.callee == "strconv.FormatBool":
+			default:
+				okc = false
+				detail += " (expected " + w.callee + ")"
+			}
+			c.Check(okc, "C05-TOSTR", "valid.ToStr", "type:"+bt.Name(), call.Pos(), "rendered by "+detail, "rendered by "+detail)
+		}
+	}
+	for n := range wants {
+		if !found[n] {
+			c.Bad("C05-TOSTR", "valid.ToStr", "type:"+n, fn.Pos(), "no case for "+n+": falls to the fmt default rendering")
+		}
+	}
+}
